@@ -10,14 +10,18 @@ Three kinds of cases:
   count and order with the driver op ``records`` (Lean ``fitMany`` + ``serialize`` + ``readAll``);
   metadata (model_dir, filters, extinction law) with what was passed in.
 * ``rw``   1–5 arbitrary records (NaN / +-inf chi², 0..6 fits, with / without predicted fluxes) written
-  with ``FitInfoFile.write`` and read back.
+  with ``FitInfoFile.write`` and read back; in part of the cases the records SHARE objects that are
+  changed between the writes (one Source instance re-used as a buffer; the same FitInfo written, cut
+  with keep(), written again; numpy arrays shared between records and modified in place) — every
+  record read back must equal the snapshot the harness took of it at the moment it was written.
 * ``hist`` results R (from ``fit``) held as a file, as one FitInfo, as a list of FitInfo; sequences of
   <= 3 calls of write_parameters / write_parameter_ranges / extract_parameters / plot(output_dir=None)
-  / filter_output with different selectors.  After *every* call the deep digest of every caller
+  / plot(output_dir=None, show_convolved=True) (when the results carry predicted fluxes) /
+  filter_output with different selectors.  After *every* call the deep digest of every caller
   object (and of the input file) must be what it was before; the outputs must be identical across
   the input forms; and they must be the rows the driver op ``history`` (Lean heap machine, copy
-  mode) predicts.  thorough: all sequences of length <= 3 over a 14-call alphabet
-  (4 selector ops x 3 selectors + filter_output x 2 thresholds) for each form.
+  mode) predicts.  thorough: all sequences of length <= 3 over a 15-call alphabet
+  (4 selector ops x 3 selectors + filter_output x 2 thresholds + plot(show_convolved=True)) for each form.
 """
 import hashlib
 import itertools
@@ -37,7 +41,7 @@ PID = 'C10'
 RULE = ('cases are drawn from the quantifier of C10: (fit) data files of 1..12 lines mixing eligible and '
         'ineligible sources with at least one eligible, n_data_min in 0..n_filters+1, all six selector forms, '
         'output_convolved yes/no, file ending at EOF (with / without newline) or at a blank line; (rw) 1..5 '
-        'arbitrary records incl. NaN/inf chi2 written and read back; (hist) sequences of <=3 post-processing '
+        'arbitrary records incl. NaN/inf chi2 written and read back, partly sharing objects that are mutated between the writes (compared with snapshots taken at write time); (hist) sequences of <=3 post-processing '
         'calls with different selectors on results passed as file / object / list.  A fit case is non-trivial '
         'when it holds at least one ineligible line or more than one record; a hist case when at least one call '
         'cuts a record (k < n_fits); distinct = distinct canonical hash of the generated case')
@@ -46,8 +50,9 @@ REQUIRED_BRANCHES = ['ineligible_skipped', 'all_eligible', 'nmin_zero', 'conv_ye
                      'end_eof_newline', 'end_eof_no_newline', 'end_blank_line',
                      'record_zero_fits', 'singular_source_fitted',
                      'rw_nan', 'rw_inf', 'rw_zero_fits', 'rw_fluxes', 'rw_no_fluxes',
+                     'rw_share_source_buffer', 'rw_share_same_info_keep', 'rw_share_array_inplace',
                      'form_file', 'form_obj', 'form_list',
-                     'op_wp', 'op_wr', 'op_ex', 'op_pl', 'op_fo',
+                     'op_wp', 'op_wr', 'op_ex', 'op_pl', 'op_pc', 'op_fo',
                      'keep_cuts', 'filter_good', 'filter_bad', 'mem_from_fit', 'mem_from_read', 'seq_len3']
 ASSUMPTIONS = ['pickle is not modelled: the Lean read-back theorem assumes the two codec laws (load(dump(x)+rest) = '
                '(x, rest); load at end of stream = EOFError); the correspondence observes them on every case',
@@ -69,6 +74,7 @@ N_SEQ = {'quick': 9, 'thorough': 14}
 SEL_FORMS = ['A', 'N', 'C', 'D', 'E', 'F']
 ENDINGS = ['eof_newline', 'eof_no_newline', 'blank_line', 'spaces_line']
 SEL_OPS = ['wp', 'wr', 'ex', 'pl']
+SHARES = ['source_buffer', 'same_info_keep', 'array_inplace']
 
 
 # ----------------------------------------------------------------------------- generation
@@ -188,11 +194,16 @@ def gen_rw_case(rng, directed=None):
     nb = len(pkg['wavs'])
     nrec = rng.randint(1, 5)
     recs = []
+    share = directed['share'] if 'share' in directed else rng.choice([None, None, None] + SHARES)
+    if share == 'source_buffer':
+        nrec = max(nrec, 2)
     for i in range(nrec):
         n = rng.choice([0, 1, 2, 3, 4, 5, 6]) if not directed.get('zero') or i else 0
         special = directed.get('special')
         if special and i == 0:
             n = max(n, 2)
+        if share and i == 0:
+            n = rng.randint(3, 6)
         chi2 = []
         for j in range(n):
             r = rng.random() if not (special and i == 0 and j == 0) else 0.4
@@ -211,7 +222,15 @@ def gen_rw_case(rng, directed=None):
                          fluxes=[[round(rng.uniform(-3, 3), 4) for _ in range(nb)] for _ in range(n)] if with_flux else None,
                          sort=rng.random() < 0.7,
                          names=['m%d' % k for k in rng.sample(range(1000), n)]))
-    return dict(kind='rw', pkg=pkg, recs=recs)
+    case = dict(kind='rw', pkg=pkg, recs=recs)
+    if share:
+        # objects shared between records and changed between the writes (see `write_shared`)
+        case['share'] = share
+        case['inplace'] = rng.random() < 0.5
+        case['keeps'] = sorted([rng.randint(0, recs[0]['n'] - 1) for _ in range(rng.randint(1, 3))], reverse=True)
+        case['deltas'] = [round(rng.uniform(0.5, 9.), 2) for _ in range(rng.randint(1, 3))]
+        case['via_copy'] = rng.random() < 0.5
+    return case
 
 
 def gen_hist_case(rng, tier, directed=None):
@@ -232,13 +251,19 @@ def gen_hist_case(rng, tier, directed=None):
         sels[0] = gen_selector(rng, rng.choice(['C', 'D', 'E', 'F', 'N']), nm)
     thrs = directed.get('thrs') or [nice(rng, 0.5, 50., 2), nice(rng, 50., 5e4, 2)]
     alphabet = [[op, s] for op in SEL_OPS for s in sels] + [['fo', t] for t in thrs]
-    case = dict(kind='hist', pkg=pkg, sources=sources, out_sel=out_sel, conv=rng.random() < 0.5,
+    conv = directed['conv'] if 'conv' in directed else rng.random() < 0.6
+    if conv:
+        # the results carry the predicted fluxes: plot(show_convolved=True) reads them
+        alphabet += [['pc', sels[1]]] if 'first' in directed else [['pc', s] for s in sels]
+    case = dict(kind='hist', pkg=pkg, sources=sources, out_sel=out_sel, conv=conv,
                 mem_from=directed.get('mem_from') or rng.choice(['fit', 'read']), alphabet=alphabet)
     if 'first' in directed:
         case['exhaustive_first'] = directed['first']
     else:
         seqs = [[0, 11], [0, 5, 8], [3, 0, 3], [12, 9, 2], [6, 13, 7]][:5]   # cut-then-wider directed sequences
-        while len(seqs) < N_SEQ[tier]:
+        if conv:
+            seqs += [[15, 12], [14, 16, 13], [16, 15, 1]]   # convolved-flux plot, then something that reads the fluxes again
+        while len(seqs) < N_SEQ[tier] + (3 if conv else 0):
             seqs.append([rng.randrange(len(alphabet)) for _ in range(rng.choice([1, 2, 3, 3]))])
         case['seqs'] = seqs
     return case
@@ -255,26 +280,31 @@ def gen_cases(seed, tier):
     for dsp in directed_fit:
         yield gen_fit_case(case_rng(seed, PID, i), dsp)
         i += 1
-    for dsp in [dict(special='nan'), dict(special='inf'), dict(zero=True), dict(fluxes=True), dict(fluxes=False)]:
+    for dsp in [dict(special='nan', share=None), dict(special='inf', share=None), dict(zero=True, share=None),
+                dict(fluxes=True, share=None), dict(fluxes=False, share=None),
+                dict(share='source_buffer'), dict(share='same_info_keep'), dict(share='array_inplace', fluxes=True),
+                dict(share='source_buffer', fluxes=True), dict(share='array_inplace', fluxes=False)]:
         yield gen_rw_case(case_rng(seed, PID, i), dsp)
         i += 1
-    for dsp in [dict(k=1, mem_from='fit', out_sel=['A', 0], thrs=[1e-9, 1e12]), dict(k=3, mem_from='read', out_sel=['A', 0]),
-                dict(k=1, mem_from='read', out_sel=['N', 2]), dict(k=2, mem_from='fit', out_sel=['A', 0], thrs=[1e-9, 1e12])]:
+    for dsp in [dict(k=1, mem_from='fit', out_sel=['A', 0], thrs=[1e-9, 1e12], conv=True),
+                dict(k=3, mem_from='read', out_sel=['A', 0], conv=True),
+                dict(k=1, mem_from='read', out_sel=['N', 2], conv=False),
+                dict(k=2, mem_from='fit', out_sel=['A', 0], thrs=[1e-9, 1e12], conv=False)]:
         yield gen_hist_case(case_rng(seed, PID, i), tier, dsp)
         i += 1
-    # thorough, exhaustive: all sequences of length <= 3 over the 14-call alphabet, one case per first call,
+    # thorough, exhaustive: all sequences of length <= 3 over the 15-call alphabet, one case per first call,
     # for a 1-record result (file / obj / list) and a 3-record result (file / list, + obj on record 0);
-    # the 28 shards are interleaved with the random cases so that the pool spreads them over the workers
+    # the 30 shards are interleaved with the random cases so that the pool spreads them over the workers
     shards = []
     if tier == 'thorough':
         for k, mem in [(1, 'fit'), (3, 'read')]:
-            for first in range(14):
-                # same generator stream for the 14 shards so that they share package and sources
+            for first in range(15):
+                # same generator stream for the 15 shards so that they share package and sources
                 shards.append(gen_hist_case(case_rng(seed, PID, 'exh%d' % k), tier,
-                                            dict(k=k, mem_from=mem, out_sel=['A', 0], first=first)))
+                                            dict(k=k, mem_from=mem, out_sel=['A', 0], first=first, conv=True)))
     rest = ([('fit', None)] * N_FIT[tier]) + ([('rw', None)] * N_RW[tier]) + ([('hist', None)] * N_HIST[tier])
     case_rng(seed, PID, 'order').shuffle(rest)
-    every = max(1, len(rest) // 29)
+    every = max(1, len(rest) // 31)
     for j, (kind, _) in enumerate(rest):
         if shards and j % every == 0:
             yield shards.pop(0)
@@ -523,6 +553,88 @@ def _fl(x):
     return float(x)
 
 
+def freeze(info):
+    """deep copy of everything a record holds, taken at the moment it is handed to write()"""
+    import types
+
+    def cp(x):
+        return None if x is None else np.array(x, copy=True)
+    src = info.source
+    return types.SimpleNamespace(
+        source=types.SimpleNamespace(name=str(src.name), x=float(src.x), y=float(src.y),
+                                     valid=cp(src.valid), flux=cp(src.flux), error=cp(src.error)),
+        av=cp(info.av), sc=cp(info.sc), chi2=cp(info.chi2), model_id=cp(info.model_id),
+        model_name=cp(info.model_name), model_fluxes=cp(info.model_fluxes), n_fits=int(info.n_fits))
+
+
+def write_shared(fout, infos, case):
+    """write the records to one FitInfoFile; returns the snapshot of each record at write time.
+    With case['share'] the records share objects that are changed between the writes:
+      source_buffer   one Source instance is re-used for every record (fields re-assigned, or its arrays
+                      overwritten in place)
+      same_info_keep  the first FitInfo is written, cut with keep(('N', k)), written again, ...
+      array_inplace   the first FitInfo (or shallow copies of it, sharing every array and the Source) is
+                      written again after its numpy arrays were modified in place"""
+    import copy
+    from sedfitter.source import Source
+    share = case.get('share')
+    snaps = []
+
+    def put(info):
+        snaps.append(freeze(info))
+        fout.write(info)
+    if share == 'source_buffer':
+        buf = Source()
+        for j, info in enumerate(infos):
+            src = info.source
+            buf.name = src.name
+            buf.x = src.x + j
+            buf.y = src.y - j
+            if case['inplace'] and j > 0:
+                buf.valid[:] = src.valid
+                buf.flux[:] = src.flux * (j + 1)
+                buf.error[:] = src.error * (j + 2)
+            else:
+                buf.valid = np.array(src.valid)
+                buf.flux = np.array(src.flux) * (j + 1)
+                buf.error = np.array(src.error) * (j + 2)
+            info.source = buf
+            put(info)
+        return snaps
+    if share == 'same_info_keep':
+        first = infos[0]
+        put(first)
+        for kk in case['keeps']:
+            first.keep(('N', kk))
+            put(first)
+        for info in infos[1:]:
+            put(info)
+        return snaps
+    if share == 'array_inplace':
+        first = infos[0]
+        put(first)
+        for t, dl in enumerate(case['deltas']):
+            obj = first
+            if case['via_copy']:
+                obj = copy.copy(first)
+                obj.meta = first.meta
+            first.chi2[t % len(first.chi2)] += dl
+            first.av[:] = first.av + dl
+            first.sc[-1] = -dl
+            first.model_id[0] = first.model_id[0] + 1
+            if first.model_fluxes is not None:
+                first.model_fluxes[0, :] -= dl
+            first.source.flux[0] = first.source.flux[0] * 2
+            first.source.error[:] = first.source.error + dl
+            put(obj)
+        for info in infos[1:]:
+            put(info)
+        return snaps
+    for info in infos:
+        put(info)
+    return snaps
+
+
 def run_rw_case(case, use_model=True):
     from astropy import units as u
     from sedfitter.fit_info import FitInfoFile
@@ -544,21 +656,25 @@ def run_rw_case(case, use_model=True):
                                    sort=r['sort'], meta=meta)
             infos.append(info)
         path = os.path.join(d, 'rw.fitinfo')
+        share = case.get('share')
         try:
             fout = FitInfoFile(path, 'w')
-            for info in infos:
-                fout.write(info)
+            written = write_shared(fout, infos, case)     # snapshots taken at the moment of each write
             fout.close()
             rmeta, recs = read_fit_file(path)
         except Exception as e:
             return CaseResult(False, violates=True,
                               detail='write/read of %d records raised %s: %s' % (len(infos), type(e).__name__, e))
+        infos = written
+        how = '' if not share else ' (objects shared between the records and changed between the writes: %s)' % share
         if len(recs) != len(infos):
-            return CaseResult(False, violates=True, detail='%d records written, %d read back' % (len(infos), len(recs)))
-        for r, e in zip(recs, infos):
+            return CaseResult(False, violates=True, detail='%d records written, %d read back%s' % (len(infos), len(recs), how))
+        for ri, (r, e) in enumerate(zip(recs, infos)):
             dd = diff_info(r, e)
             if dd:
-                return CaseResult(False, violates=True, detail='record %s changed in write->read: %s' % (e.source.name, dd))
+                return CaseResult(False, violates=True,
+                                  detail='record %d (%s) read back differs from the object as it was when written%s: %s'
+                                         % (ri, e.source.name, how, dd))
         dm = diff_meta(rmeta, meta[0], ['B%d' % j for j in range(len(filters))], pkg['aps'], pkg['wavs'], pkg['tab_w'], pkg['tab_chi'])
         if dm:
             return CaseResult(False, violates=True, detail='metadata changed in write->read: ' + dm)
@@ -574,9 +690,11 @@ def run_rw_case(case, use_model=True):
         if any(r['n'] == 0 for r in case['recs']):
             branches.add('rw_zero_fits')
         branches.add('rw_fluxes' if any(r['fluxes'] is not None for r in case['recs']) else 'rw_no_fluxes')
+        if share:
+            branches.add('rw_share_' + share)
         if any(r['fluxes'] is None for r in case['recs']):
             branches.add('rw_no_fluxes')
-        sample = dict(kind='rw', n_records=len(infos), chi2=[r['chi2'] for r in case['recs']][:3])
+        sample = dict(kind='rw', n_records=len(infos), share=share, chi2=[r['chi2'] for r in case['recs']][:3])
         return CaseResult(True, branches=branches, key=common.canon_hash(case), nontrivial=True, sample=sample)
     finally:
         shutil.rmtree(d, ignore_errors=True)
@@ -669,8 +787,8 @@ def do_call(call, inp, workdir, tag):
                 sedfitter.extract_parameters(input=inp, output_prefix=sub + '/x_', select_format=(arg[0], arg[1]))
                 files = {f: open(os.path.join(sub, f)).read() for f in sorted(os.listdir(sub))}
                 return files, parse_ex(files)
-            if op == 'pl':
-                figs = sedfitter.plot(inp, output_dir=None, select_format=(arg[0], arg[1]))
+            if op in ('pl', 'pc'):
+                figs = sedfitter.plot(inp, output_dir=None, select_format=(arg[0], arg[1]), show_convolved=(op == 'pc'))
                 canon = {}
                 view = []
                 for name in figs:
@@ -923,7 +1041,7 @@ def run_hist_case(case, use_model=True):
                         ks = [n_keep(call[1], chi2s[i], nds[i]) for i in range(k)]
                         if any(ks[i] < len(chi2s[i]) for i in g):
                             cuts = True
-                        mcalls.append((call[0], ks, None))
+                        mcalls.append(('pl' if call[0] == 'pc' else call[0], ks, None))
                     branches.add('op_' + call[0])
                 if use_model:
                     for fname, _, mtoks in forms:
